@@ -126,6 +126,16 @@ type X struct {
 	prop     string
 	requires []*Term
 	retPC    *Term
+	events   []callEvent
+}
+
+// callEvent records the symbolic result of a call to a function that was
+// not inlined (contract or unknown); replay uses it to rebuild peer input.
+type callEvent struct {
+	Guard *Term
+	Name  string
+	Vals  []*Term // flattened results
+	Lens  []*Term // lengths of slice arguments
 }
 
 func NewX(w *World, root string, mode *Mode) *X {
@@ -284,6 +294,17 @@ func (x *X) valueFacts(v Value) {
 	lay := LayoutOf(v.T)
 	for i, lf := range lay.Leaves {
 		x.typeFacts(v.L[i], lf)
+	}
+	if it, ok := v.T.Underlying().(*types.Interface); ok && len(x.W.InterestingTypes) > 0 && !x.B.hasBoundVar(v.L[0]) && v.L[0].Op != "int" {
+		key := -11*v.L[0].id - 5
+		if !x.typed[key] {
+			x.typed[key] = true
+			for _, ct := range x.W.InterestingTypes {
+				if !types.Implements(ct, it) {
+					x.assumeGlobal(x.B.Neq(v.L[0], x.typeID(ct)), "dynamic type must implement the static interface type")
+				}
+			}
+		}
 	}
 	// slice consistency len <= cap
 	if _, ok := v.T.Underlying().(*types.Slice); ok {
